@@ -1,5 +1,6 @@
 pub mod c02;
 pub mod c03;
+pub mod c11;
 pub mod c12;
 pub mod c13;
 pub mod c15;
@@ -10,6 +11,7 @@ pub fn lookup(id: &str) -> Option<(&'static PropSpec, fn(&RunCfg) -> Report)> {
     Some(match id {
         "C02" => (&c02::SPEC, c02::run as fn(&RunCfg) -> Report),
         "C03" => (&c03::SPEC, c03::run as fn(&RunCfg) -> Report),
+        "C11" => (&c11::SPEC, c11::run as fn(&RunCfg) -> Report),
         "C12" => (&c12::SPEC, c12::run as fn(&RunCfg) -> Report),
         "C13" => (&c13::SPEC, c13::run as fn(&RunCfg) -> Report),
         "C15" => (&c15::SPEC, c15::run as fn(&RunCfg) -> Report),
